@@ -77,6 +77,13 @@ def run(ctx):
         except Exception:
             py = 'none'
         cases.append(('amt_parse %s' % s, py, True))
+        # the bare number, without a currency code, is the same amount of coins (also when it has no decimal point)
+        try:
+            py = str(value_to_satoshi(s))
+        except Exception:
+            py = 'none'
+        ctx.count('bare-number:' + ('digits-only' if d == 0 else 'decimal'))
+        cases.append(('amt_parse %s' % s, py, True))
     ctx.compare(cases, 'parse')
 
     # ---- every denominator symbol, every network -------------------------------------------------------------------------------
@@ -174,8 +181,10 @@ def run(ctx):
             got = None
         if got is not None:
             ctx.violation('an amount with an unknown currency code is converted as if it were the default currency', {'op': 'parse_symbol', 'amount': '1 ' + code_, 'observed': got})
-    for n in rng.sample(ns, 40 if T else 12):
+    for n in rng.sample(ns, 40 if T else 12) + [k_ * 10 ** 8 for k_ in (1, 2, 5, 21000000)] + [rng.randrange(1, 21 * 10 ** 6) * 10 ** 8 for _ in range(6)]:
         txt = '%d.%08d BTC' % (n // 10 ** 8, n % 10 ** 8)
+        if n % 10 ** 8 == 0:
+            txt = rng.choice(['%d', '%d', '%d BTC', '%d.0']) % (n // 10 ** 8)        # whole coins written without decimals / without a code
         for form_, mk in (('add_output(text)', lambda: Transaction().add_output(txt, EXT_ADDR) or 0), ('add_output(Value)', lambda: Transaction().add_output(Value(txt), EXT_ADDR) or 0),
                           ('Output(text)', None), ('Output(Value)', None)):
             ctx.evals += 1
